@@ -39,7 +39,7 @@ pub fn def() -> CheckDef {
         real: &["storescp: run_store_sync, run_store_async and their inner loops, App (clap) argument parsing", "ServerAssociation / AsyncServerAssociation establish, receive, send", "InMemDicomObject::read_dataset_with_ts, FileMetaTableBuilder, write_to_file (real file system in a per-worker sandbox)", "std and tokio TcpStream, mio, tokio current-thread runtime"],
         stub: &["TCP/IP (simulated queues)", "the requestor (scripted, independent encoders)", "the listener accept loop of main() (each run hands one accepted connection to the per-connection body)", "open() is observed (and refused below an unreachable prefix) but otherwise real"],
         assumptions: &["the harness links the tool sources with transfer-syntax-registry features deflate+native; the shipped default build registers fewer supported syntaxes", "command sets are sent in one fragment (the tool ignores split command fragments; the property quantifies over data fragments)", "no connection faults here (C30/C34 carry those)"],
-        required_probes: &["stored-ok", "uid-parent-ref", "uid-subdir", "uid-absolute", "uid-unreachable-absolute", "empty-last-fragment-own-pdu", "many-fragments", "ts-deflated", "ts-encapsulated", "ts-big-endian", "ts-implicit", "echo-interleaved", "several-pdvs-per-pdu"],
+        required_probes: &["stored-ok", "uid-parent-ref", "uid-subdir", "uid-absolute", "uid-unreachable-absolute", "empty-last-fragment-own-pdu", "many-fragments", "ts-deflated", "ts-encapsulated", "ts-big-endian", "ts-implicit", "echo-interleaved", "several-pdvs-per-pdu", "release-answered", "aborted-by-peer"],
         net: true,
     }
 }
@@ -94,6 +94,8 @@ struct ReqResult {
     responses: Vec<Option<(u16, Option<u16>, Option<Vec<u8>>)>>,
     echo_responses: Vec<(u16, Option<u16>)>,
     released: bool,
+    release_sent: bool,
+    aborted: bool,
     note: String,
     stores: Vec<Store>,
 }
@@ -257,6 +259,7 @@ fn run(cfgi: usize, w: &mut Tape, env: &EnvRef) -> RunResult {
         frag_tapes.push(w.below(1 << 30) as u64);
     }
     let pick_seed = w.below(1 << 30) as u64;
+    let end_with_abort = w.chance(1, 6);
     env.with(|e| {
         e.obs.note_with(|| {
             format!(
@@ -409,8 +412,14 @@ fn run(cfgi: usize, w: &mut Tape, env: &EnvRef) -> RunResult {
                     }
                 }
             }
-            if out.note.is_empty() && raw_send_all(fd, &rp::encode(&RPdu::ReleaseRq).unwrap()) {
-                out.released = matches!(raw_recv_pdu(fd, &mut buf), Some((6, _)));
+            if out.note.is_empty() {
+                if end_with_abort {
+                    raw_send_all(fd, &rp::encode(&RPdu::Abort { source: 0, reason: 0 }).unwrap());
+                    out.aborted = true;
+                } else if raw_send_all(fd, &rp::encode(&RPdu::ReleaseRq).unwrap()) {
+                    out.release_sent = true;
+                    out.released = matches!(raw_recv_pdu(fd, &mut buf), Some((6, _)));
+                }
             }
             finish(out);
         });
@@ -553,6 +562,20 @@ fn run(cfgi: usize, w: &mut Tape, env: &EnvRef) -> RunResult {
             String::from_utf8_lossy(&st.affected_instance),
             why
         );
+    }
+    // ---- (3) the session ends by the protocol (C30's clause for the storescp loops)
+    if r.release_sent {
+        env.probe("release-answered");
+        check!(r.released, "release-answered", format!("c32:{}:release-not-answered", who), "the requestor's A-RELEASE-RQ after a clean session was not answered with A-RELEASE-RP");
+        let (pdus, _) = wire_pdus(&end.eps[conn.a]);
+        check!(matches!(pdus.last(), Some(Ok(RPdu::ReleaseRp))), "release-answered", format!("c32:{}:sends-after-release-rp", who), "storescp sent something after its A-RELEASE-RP");
+    }
+    if r.aborted {
+        env.probe("aborted-by-peer");
+        let (pdus, _) = wire_pdus(&end.eps[conn.a]);
+        let n_before = pdus.len();
+        let _ = n_before;
+        check!(end.eps[conn.a].closed, "abort-closes", format!("c32:{}:open-after-abort", who), "storescp did not close the connection after the peer's A-ABORT");
     }
     for (id, echoed) in &r.echo_responses {
         // observation only: the C-ECHO response's message id (not part of the storage property)
